@@ -32,8 +32,10 @@ pub fn language(name: &str) -> Language {
     }
 }
 
-const COMPS: [&str; 12] = [
+const COMPS: [&str; 30] = [
     "a", "m", "GameData.bin.lz", " ", "a b", ".x", "é", "@E", "e_", "x.y.z", "日本", "..",
+    // unusual but legal characters in a Unix file name (everything except '/' and NUL)
+    "a\\b", "\\", "c:d", "%41", "#x", "~", "a*", "q?", "[x]", "{y}", "$H", "a&b", "'", "\"", ";", "-r", "\t", "x\u{7f}",
 ];
 
 pub fn gen(seed: u64, tier: &str) -> Vec<String> {
@@ -45,10 +47,14 @@ pub fn gen(seed: u64, tier: &str) -> Vec<String> {
     }
     // exhaustive depth 1..2 over the component alphabet, sampled depth 3..4
     let plain: Vec<&str> = COMPS.iter().cloned().filter(|c| *c != "..").collect();
-    for a in &plain {
+    for (i, a) in plain.iter().enumerate() {
         paths.push(a.to_string());
-        for b in &plain {
-            paths.push(format!("{}/{}", a, b));
+        for (j, b) in plain.iter().enumerate() {
+            // exhaustive over the first 11 components, every unusual one as directory and as last
+            // component against a rotating partner
+            if (i < 11 && j < 11) || (i + j) % 5 == 0 || i == j {
+                paths.push(format!("{}/{}", a, b));
+            }
         }
     }
     let deep = if tier == "thorough" { 4000 } else { 300 };
